@@ -408,6 +408,32 @@ M("c20-parse-in-loop", "C20", "json_util.c",
 M("c20-benign-while-form", "C20", "json_util.c",
   "\twhile (wpos < wsize)\n\t{", "\twhile (wsize > wpos)\n\t{", expect="silent")
 
+# ---- C05 -------------------------------------------------------------------------------------
+M("c05-double-put-on-replace", "C05", "json_object.c",
+  "\tif (existing_value)\n\t\tjson_object_put(existing_value);\n\tlh_entry_set_val(existing_entry, val);",
+  "\tif (existing_value)\n\t\tjson_object_put(existing_value);\n\tjson_object_put((json_object *)lh_entry_v(existing_entry));\n\tlh_entry_set_val(existing_entry, val);", needle="C06.R2")
+M("c05-callback-after-free", "C05", "json_object.c",
+  "\tif (jso->_user_delete)\n\t\tjso->_user_delete(jso, jso->_userdata);\n\tswitch (jso->o_type)\n\t{\n\tcase json_type_object: json_object_object_delete(jso); break;",
+  "\tswitch (jso->o_type)\n\t{\n\tcase json_type_object: if (jso->_user_delete) jso->_user_delete(jso, jso->_userdata); json_object_object_delete(jso); break;", needle="C05.R2")
+M("c05-string-leaks-pdata", "C05", "json_object.c",
+  "\tcase json_type_string: json_object_string_delete(jso); break;", "\tcase json_type_string: json_object_generic_delete(jso); break;", needle="C05.R2")
+M("c05-put-returns-zero", "C05", "json_object.c",
+  "\tdefault: json_object_generic_delete(jso); break;\n\t}\n\treturn 1;", "\tdefault: json_object_generic_delete(jso); break;\n\t}\n\treturn 0;", needle="C05.R2")
+M("c05-store-before-failure", "C05", "arraylist.c",
+  "\tif (idx > SIZE_T_MAX - 1)\n\t\treturn -1;\n\tif (array_list_expand_internal(arr, idx + 1))\n\t\treturn -1;\n\tif (idx < arr->length",
+  "\tif (idx > SIZE_T_MAX - 1)\n\t\treturn -1;\n\tif (idx < arr->size)\n\t\tarr->array[idx] = data;\n\tif (array_list_expand_internal(arr, idx + 1))\n\t\treturn -1;\n\tif (idx < arr->length", needle="C05.R3")
+M("c05-userdata-overwrite-first", "C05", "json_object.c",
+  "\tif (jso->_user_delete)\n\t\tjso->_user_delete(jso, jso->_userdata);\n\n\tjso->_userdata = userdata;\n\tjso->_user_delete = user_delete;",
+  "\tvoid *old = jso->_userdata;\n\tjso->_userdata = userdata;\n\tif (jso->_user_delete)\n\t\tjso->_user_delete(jso, old);\n\tjso->_user_delete = user_delete;", needle="C05.R4")
+M("c05-use-after-free", "C05", "json_pointer.c",
+  "\trc = json_pointer_object_get_recursive(*obj, path_copy, &set);\n\tfree(path_copy);\n\n\tif (rc)\n\t\treturn rc;",
+  "\trc = json_pointer_object_get_recursive(*obj, path_copy, &set);\n\tfree(path_copy);\n\n\tif (rc)\n\t\treturn path_copy[0] ? rc : -1;", needle="C05.R5")
+M("c05-entry-free-forgets-key", "C05", "json_object.c",
+  "\tif (!lh_entry_k_is_constant(ent))\n\t\tfree(lh_entry_k(ent));\n\tjson_object_put", "\tjson_object_put", needle="C05.R1")
+M("c05-benign-switch-order", "C05", "json_object.c",
+  "\tcase json_type_object: json_object_object_delete(jso); break;\n\tcase json_type_array: json_object_array_delete(jso); break;",
+  "\tcase json_type_array: json_object_array_delete(jso); break;\n\tcase json_type_object: json_object_object_delete(jso); break;", expect="silent")
+
 
 def sh(cmd, **kw):
     return subprocess.run(cmd, shell=isinstance(cmd, str), stdout=subprocess.PIPE, stderr=subprocess.STDOUT, text=True, **kw)
